@@ -174,3 +174,63 @@ class DispatchAsymm:
         g = ov.Overlap.__dict__["construct_array_contraction"]
         g = g.__func__ if isinstance(g, staticmethod) else g
         M.true("dispatch/same-block-routine", f is g, "OverlapAsymmetric.construct_array_contraction is Overlap's")
+
+
+
+class ConventionInline:
+    """everything real (also generate_transformation): two shells with identical data, one of them of a shell
+    type that reports its Cartesian and pure components in another order / sign convention, used TOGETHER in
+    one basis: the second shell's functions are the first shell's, permuted and signed accordingly -- for the
+    evaluation (one-index) and the overlap (two-index) routes, Cartesian, spherical and mixed"""
+
+    function = "component conventions taken from the shell object, across shells of one basis (inline)"
+
+    def shapes(self, tier):
+        return [dict(l=l, types=t, what=w) for l in ((1, 2) if tier == "quick" else (1, 2, 3))
+                for t in (["spherical", "spherical"], ["cartesian", "spherical"], ["cartesian", "cartesian"]) for w in ("both", "cart-only", "labels-only")]
+
+    def run(self, shape, M):
+        from .common import cart_components, make_shell
+        from .spherical import default_sph
+
+        cmod = M.mods["gbasis.contractions"]
+        l = shape["l"]
+        cart = cart_components(l)
+        what = shape.get("what", "both")
+        cperm = list(range(len(cart)))[::-1] if what != "labels-only" else list(range(len(cart)))
+        labs = default_sph(l)
+        lperm = (list(range(len(labs)))[1:] + [0]) if what != "cart-only" else list(range(len(labs)))
+        signs = [(-1) ** i for i in range(len(labs))] if what != "cart-only" else [1] * len(labs)
+
+        class Conv(cmod.GeneralizedContractionShell):
+            @property
+            def angmom_components_cart(self):
+                return np.array([cart[i] for i in cperm])
+
+            @property
+            def angmom_components_sph(self):
+                return tuple(("-" if signs[i] < 0 else "") + labs[lperm[i]] for i in range(len(labs)))
+
+        A, e, d = M.vec("A", 3), M.vec("a", 1, "pos"), M.vec("d", (1, 1), "pos")
+        s0 = make_shell(M, l, A, d, e, coord_type=shape["types"][0])
+        s1 = make_shell(M, l, A, d, e, coord_type=shape["types"][1], cls=Conv)
+        pts = M.array(np.array([A + M.vec("T", 3)], dtype=object))
+        ev = M.mods["gbasis.evals.eval"].evaluate_basis
+        both = ev([s0, s1], pts)
+        ref0 = ev([make_shell(M, l, A, d, e, coord_type=shape["types"][1])], pts)  # default conventions, type of the second shell
+        n0 = s0.num_cart if shape["types"][0] == "cartesian" else s0.num_sph
+        for i in range(both.shape[0] - n0):
+            if shape["types"][1] == "cartesian":
+                exp = ref0[cperm[i], 0]
+            else:
+                exp = ref0[lperm[i], 0] * signs[i]
+            M.eq("conv_inline/eval" + tag((i,)), both[n0 + i, 0], exp)
+        S = M.mods["gbasis.integrals.overlap"].overlap_integral([s0, s1])
+        Sref = M.mods["gbasis.integrals.overlap"].overlap_integral([s0, make_shell(M, l, A, d, e, coord_type=shape["types"][1])])
+        for i in range(n0):
+            for j in range(S.shape[0] - n0):
+                if shape["types"][1] == "cartesian":
+                    exp = Sref[i, n0 + cperm[j]]
+                else:
+                    exp = Sref[i, n0 + lperm[j]] * signs[j]
+                M.eq("conv_inline/overlap" + tag((i, j)), S[i, n0 + j], exp)
